@@ -149,6 +149,10 @@ def get_attr(I, obj, name, node):
                 return Builtin('object.__eq__', recv=self_obj)
             raise AnalysisError('super().%s not found' % name)
         return BoundMethod(self_obj, m, cls)
+    if isinstance(obj, Label) and name in ('lower', 'upper', 'casefold', 'strip', 'replace', 'title', 'swapcase',
+                                            'lstrip', 'rstrip', 'encode', 'startswith', 'endswith', 'split', 'join', 'format'):
+        # a symbolic encoding name used as text: the result is some string derived from it
+        obj = Unk('text-of-%s' % obj.text, kinds=['str'], taint=[], src=('label', obj))
     if type(obj).__name__ == 'AMatch':
         if name in MATCH_METHODS:
             return Builtin('match.' + name, recv=obj)
